@@ -66,6 +66,7 @@ Print Assumptions propagate_shrinks.
 
 Theorem propagate_keeps_solutions : forall pick fuel ps s q a,
   Forall contracting ps -> Forall sound ps -> scoped ps (length s) -> wf_store s -> sol ps s a ->
+  (forall i, In i q -> (i < length ps)%nat) ->
   propagate pick fuel ps s q <> PFail /\ forall s', propagate pick fuel ps s q = PDone s' -> inst a s'.
 Proof. exact EngineProofs.propagate_keeps_solutions. Qed.
 Print Assumptions propagate_keeps_solutions.
@@ -77,7 +78,7 @@ Proof. exact EngineProofs.propagate_fixpoint. Qed.
 Print Assumptions propagate_fixpoint.
 
 Theorem fixed_fixpoint_checks : forall ps s a,
-  Forall good ps -> wf_store s -> stable ps s [] -> all_fixed s = true -> inst a s ->
+  Forall good ps -> scoped ps (length s) -> wf_store s -> stable ps s [] -> all_fixed s = true -> inst a s ->
   forall p, In p ps -> sat p a = true.
 Proof. exact EngineProofs.fixed_fixpoint_checks. Qed.
 Print Assumptions fixed_fixpoint_checks.
